@@ -7,6 +7,10 @@ logarithm estimates / `_gen_huge`: the 8192-bit instantiation of every digit typ
 complete 8-bit enumeration and the all-widths sweep."""
 import math
 from .common import *
+
+# other public routes to this property's operations (check.py step 2d): the neighbour generator's requests whose
+# operation matches are part of this run, answered by the neighbour's harness bin
+NEIGHBOURS = {"C18": r"nt_(primint_)?pow\b"}
 from . import widthsweep as _ws
 
 HARNESS_BINS_THOROUGH = ["widths"]
